@@ -66,12 +66,12 @@ Variable okline : bytes -> bool.
 Hypothesis okline_coh : forall l dir, nospace l -> okline l = true -> l <> [] -> is_comment l = false ->
   coh (parse_pattern l dir) (gparse l dir) /\ p_dom (parse_pattern l dir) = dir.
 
-(* no blank other than LF (nothing to trim, no CR), no byte order mark, every
-   line empty, a comment, or in the fragment *)
+(* no CR, no byte order mark; every line is empty, a comment (anything but CR
+   after the "#"), or a line of the fragment without any blank (nothing to trim) *)
 Definition content_okw (c : bytes) : bool :=
-  forallb (fun b => (b =? cLF) || negb (is_space b)) c &&
+  forallb (fun b => negb (b =? cCR)) c &&
   negb (match c with b :: _ => b =? 239 | [] => false end) &&
-  forallb (fun l => is_nil l || is_comment l || okline l) (split_lf c []).
+  forallb (fun l => is_nil l || is_comment l || (forallb (fun b => negb (is_space b)) l && okline l)) (split_lf c []).
 
 Definition wide_casew (excl : option bytes) (fs : files) : bool :=
   match excl with Some c => content_okw c | None => true end &&
@@ -80,22 +80,21 @@ Definition wide_casew (excl : option bytes) (fs : files) : bool :=
 Lemma content_linesw c : content_okw c = true ->
   strip_bom_first (split_lf c []) = split_lf c [] /\
   scan_lines c [] = split_lf c [] /\ skip_bom c = c /\
-  forall l, In l (split_lf c []) -> nospace l /\ (is_nil l || is_comment l || okline l) = true.
+  forall l, In l (split_lf c []) -> is_nil l = true \/ is_comment l = true \/ (nospace l /\ okline l = true).
 Proof.
   unfold content_okw. rewrite !andb_true_iff. intros [[Hsp Hbom] Hnl].
   rewrite forallb_forall in Hsp. rewrite forallb_forall in Hnl.
   assert (Hcr : forall x, In x c -> (x =? cCR) = false).
-  { intros x Hx. specialize (Hsp _ Hx). apply orb_true_iff in Hsp. destruct Hsp as [H|H].
-    - apply N.eqb_eq in H. subst. reflexivity.
-    - apply negb_true_iff in H. unfold is_space in H. rewrite !orb_false_iff in H. unfold cCR. tauto. }
+  { intros x Hx. specialize (Hsp _ Hx). now apply negb_true_iff in Hsp. }
   split; [apply strip_bom_first_id; now apply negb_true_iff in Hbom|].
   split; [apply scan_eq_split; [assumption|intros x []]|].
   split.
   { unfold skip_bom. destruct c as [|b [|b2 [|b3 r3]]]; try reflexivity.
     apply negb_true_iff in Hbom. now rewrite Hbom. }
-  intros l Hl. split; [|now apply Hnl].
-  intros x Hx. destruct (split_lf_chars _ _ _ Hl _ Hx) as [[]|[A B]].
-  specialize (Hsp _ A). rewrite B in Hsp. cbn in Hsp. now apply negb_true_iff in Hsp.
+  intros l Hl. specialize (Hnl _ Hl). rewrite !orb_true_iff in Hnl.
+  destruct Hnl as [[H|H]|H]; [now left|right; now left|]. right. right.
+  apply andb_true_iff in H. destruct H as [H1 H2]. split; [|exact H2].
+  rewrite forallb_forall in H1. intros x Hx. specialize (H1 _ Hx). now apply negb_true_iff in H1.
 Qed.
 
 Lemma file_cohw c dir : content_okw c = true ->
@@ -105,17 +104,20 @@ Proof.
   unfold read_ignore, gread. rewrite E1, E0, E2. clear E0 E1 E2.
   revert Hl. generalize (split_lf c []). intros L.
   induction L as [|l ls IH]; intros Hl; [constructor|].
-  assert (Hl0 := Hl l (or_introl eq_refl)). destruct Hl0 as [Hns Hnl].
+  assert (Hl0 := Hl l (or_introl eq_refl)).
   assert (IH' := IH (fun l0 H => Hl l0 (or_intror H))).
   cbn [filter map flat_map].
   destruct l as [|c0 r0] eqn:El.
   - cbn. exact IH'.
-  - rewrite keep_line_name by (assumption || discriminate).
-    rewrite gline_name by (assumption || discriminate).
-    destruct (c0 =? cHASH) eqn:Eh; cbn [negb map app]; [exact IH'|].
-    constructor; [|exact IH'].
-    apply okline_coh; try assumption; try discriminate.
-    cbn [is_nil is_comment orb] in Hnl. now rewrite Eh in Hnl.
+  - destruct (c0 =? cHASH) eqn:Eh.
+    + (* a comment: dropped by both readers whatever it holds *)
+      unfold keep_line, gline. rewrite Eh. cbn [negb andb app]. exact IH'.
+    + destruct Hl0 as [H|[H|[Hns Hok]]]; [discriminate|cbn in H; congruence|].
+      rewrite keep_line_name by (assumption || discriminate).
+      rewrite gline_name by (assumption || discriminate).
+      rewrite Eh. cbn [negb map app].
+      constructor; [|exact IH'].
+      apply okline_coh; try assumption; try discriminate.
 Qed.
 
 Lemma wide_casew_ok excl fs : wide_casew excl fs = true ->
